@@ -713,6 +713,20 @@ theorem translated_outputfunc_stop_is_model (cfg : FuncCfg) (f : Func) (log : Li
     cases hr : eventPut cfg f log d with
     | mk l res => cases res <;> simp [hs, M.pure]
 
+/-- **`InExecutor.__call__` IS the model's `inExecutorCall`**: a pool is entered, the function runs in it with
+    exactly the given positional and keyword arguments (through `functools.partial` iff there are keyword
+    arguments), the pool is left on every outcome, the result is returned and an exception propagates -/
+theorem translated_outputasync_inexecutor_call_is_model (f : Func) (args : List Val) (kwargs : Data) :
+    let r := inexecutor_call (execP f) args kwargs []
+    r.1 = (inExecutorCall f args kwargs).1 ∧
+    (match r.2 with | .ret v => some (Except.ok v) | .raise e => some (Except.error e) | _ => none)
+      = some (inExecutorCall f args kwargs).2 := by
+  intro r
+  simp only [r, inexecutor_call, inExecutorCall, M.bind, M.tryFinally, execP, M.modify, M.ret]
+  cases kwargs with
+  | nil => cases f args [] <;> simp [M.bind, M.ret]
+  | cons p ps => cases f args (p :: ps) <;> simp [M.bind, M.ret]
+
 /-! ### what follows for the constructors and for OutputFunc (stated on the model the programs were proved equal to) -/
 
 /-- the mode argument: exactly 'cancel', 'wait', 'start' and their first letters are accepted -/
